@@ -28,7 +28,7 @@ pub fn encode<T: Debug>(data: &[T]) -> Vec<u8> {
 // TODO: unsafe
 #[allow(clippy::needless_pass_by_ref_mut)]
 pub fn decode<T>(src: &mut dyn Read, dst: &mut [T]) -> usize {
-    let ptr_t = dst.as_ptr();
+    let ptr_t = dst.as_mut_ptr();
     let dst_u8: &mut [u8] = unsafe {
         let ptr_u8 = ptr_t as *mut u8;
         from_raw_parts_mut(ptr_u8, std::mem::size_of_val(dst))
